@@ -141,7 +141,20 @@ func (w *World) oracleC05(pre *Snapshot, op Op, post *Snapshot, decision bool, b
 				if pu := pre.Users[app.User]; pu != nil {
 					before = pu.Apps[p]
 				}
-				if !contains(before, app.ID) && contains(ut.Apps[p], app.ID) {
+				// listed finding completing-restart-bypasses-maxapps: an application that re-enters Running from Completing
+				// (new ask, or the real ask of a reversed placeholder replacement becoming pending again) is not gated
+				reentered := false
+				if Excluded("ask-for-completing-app") {
+					for i, st := range app.StateLog {
+						if st == "Completing" && i+1 < len(app.StateLog) {
+							reentered = true
+						}
+					}
+					if reentered {
+						w.Tag("c05-admission-skipped-known-finding")
+					}
+				}
+				if !reentered && !contains(before, app.ID) && contains(ut.Apps[p], app.ID) {
 					if m, ok := lim.userApps(p, app.User); ok {
 						w.Tag("c05-admission-under-user-maxapps")
 						if uint64(len(ut.Apps[p])) > m {
@@ -155,7 +168,7 @@ func (w *World) oracleC05(pre *Snapshot, op Op, post *Snapshot, decision bool, b
 						if pg := pre.Groups[group]; pg != nil {
 							gbefore = pg.Apps[p]
 						}
-						if !contains(gbefore, app.ID) && contains(gt.Apps[p], app.ID) {
+						if !reentered && !contains(gbefore, app.ID) && contains(gt.Apps[p], app.ID) {
 							if m, ok := lim.GroupApps[p][group]; ok {
 								w.Tag("c05-admission-under-group-maxapps")
 								if uint64(len(gt.Apps[p])) > m {
